@@ -831,6 +831,42 @@ func (c *Ctx) c14Goroutines(loopFn *ssa.Function, copiers []*ssa.Function) {
 						}
 					}
 				}
+				if !good {
+					// the select may live in a boolean wait helper: the loop must be left on the edge where the
+					// helper reports its CloseNotify case
+					for b := range l.Blocks {
+						for _, in := range b.Instrs {
+							hc, ok := in.(*ssa.Call)
+							if !ok {
+								continue
+							}
+							h := flow.StaticCallee(hc)
+							if h == nil || !c.P.IsLibrary(h) {
+								continue
+							}
+							hs, vals := selectHelper(h)
+							if hs == nil || len(vals) != len(hs.States) {
+								continue
+							}
+							rl := &retransLoop{fn: t, sel: hs, waitCall: hc, caseVal: vals}
+							for si, st := range hs.States {
+								if st.Dir != types.RecvOnly || !derivesFromCloseNotify(rl.chanInFn(si)) {
+									continue
+								}
+								cb := rl.caseBlock(si)
+								if cb == nil {
+									continue
+								}
+								head := l.Head.Instrs[0]
+								first := cb.Instrs[0]
+								if first != head && flow.PathAvoiding(t, first, func(x ssa.Instruction) bool { return x == head }, nil) == nil {
+									good = true
+									why = fmt.Sprintf("the wait helper %s reports its CloseNotify case and that edge leaves the loop", h.Name())
+								}
+							}
+						}
+					}
+				}
 				r.Check(good, "R6", key, c.pos(l.Head.Instrs[0]), why, why)
 			}
 		}
